@@ -20,11 +20,13 @@ def build_variant(variant):
         return vlib.build_harness("A", exe_sources=EXEC_SOURCES)
     if variant == "tsan":
         return vlib.build_harness("tsan", sanitize="thread", exe_sources=EXEC_SOURCES)
+    if variant == "plain":
+        return vlib.build_harness("plain", sanitize=None, exe_sources=EXEC_SOURCES)
     if variant == "sched":
         return vlib.build_tpdrv()
     raise ValueError(variant)
 
-EXEC_SOURCES = tuple(s for s in ("exec.c", "ops_table.c", "ops_codec.c", "ops_merger.c", "ops_sorter.c", "ops_fileset.c", "ops_misc.c", "ops_mt.c", "ops_res.c")
+EXEC_SOURCES = tuple(s for s in ("exec.c", "ops_table.c", "ops_codec.c", "ops_merger.c", "ops_sorter.c", "ops_fileset.c", "ops_misc.c", "ops_mt.c", "ops_res.c", "ops_big.c")
                      if os.path.exists(os.path.join(vlib.HARNESS, s)))
 
 
@@ -291,6 +293,10 @@ class CrcFamily(Family):
                 for impl in (["slicing", "sse42"] if tier == "thorough" else [impls[1 + (v & 1)]]):
                     lines.append("crc %s %d %s" % (impl, 0, hx(bytes(buf))))
         yield ("crc:bytevals", lines)
+        # tens of kilobytes to megabytes at every alignment (size thresholds inside an implementation, e.g. a "large buffer"
+        # path), against an independent bytewise reference computed in the harness
+        mids = [65535, 65536, 65537, 100003, 1 << 20, (1 << 20) + 13] + ([5000011, 16777216 + 5] if tier == "thorough" else [])
+        yield ("crc:mid", ["crc.big %d %d" % (n, al) for n in mids for al in range(8)]); stats.bump("crc_64KiB_to_MiB_all_alignments")
         # buffers of 4 GiB and more (size_t arithmetic of the loops): thorough tier, and whenever the case budget is enlarged
         # because a proof obligation or the tie broke
         if tier == "thorough" or mult > 1.5:
@@ -314,7 +320,7 @@ class CrcFamily(Family):
                 f = dict(x.split("=") for x in r["real"].split(" ")[1:] if "=" in x)
                 vals = set(v for v in f.values() if v != "unsupported")
                 if r["real"].startswith("big ") and len(vals) > 1:
-                    fails.append(("C17", "buffer of %s bytes at alignment %s: the implementations disagree: %s" % (t[1], t[2], r["real"]), i))
+                    fails.append(("C17", "buffer of %s bytes at alignment %s: the implementations disagree%s: %s" % (t[1], t[2], " with the standard CRC-32C (ref)" if "ref" in f else "", r["real"]), i))
                 continue
             if t[0] != "crc":
                 continue
@@ -480,11 +486,12 @@ PROPS = {
     },
     "C08": {
         "module": "MtblProps.C08",
-        "theorems": thm("C08", ["C08_gate", "C08_refused_noop", "C08_lastkey", "C08_history", "C08_accepted_sorted", "C08_no_abort", "C08_excl"]),
+        "theorems": thm("C08", ["C08_gate", "C08_refused_noop", "C08_lastkey", "C08_history", "C08_accepted_sorted", "C08_no_abort", "C08_excl", "F11_accepted", "F11_witness"]),
         "generated": ["Constants"],
-        "families": ["table", "excl"],
+        "families": ["table", "excl", "huge"],
+        "thorough_variants": ["plain"],
         "rule": "arbitrary (unsorted) add sequences: duplicates, smaller keys, proper prefixes/extensions, bytes >= 0x80, refusals around block cuts (block sizes down to 16 bytes via the run-time minimum); pre-existing target paths; non-trivial = >= 2 data blocks and >= 3 accepted entries",
-        "assumptions": ["open(2) with O_CREAT|O_EXCL fails on an existing path and leaves it untouched (POSIX contract)", "entries shorter than 4 GiB (finding F11)"],
+        "assumptions": ["open(2) with O_CREAT|O_EXCL fails on an existing path and leaves it untouched (POSIX contract)", "entries shorter than 4 GiB: longer ones are accepted and truncated (finding F11, listed in known_findings.json, proved as F11_accepted / F11_witness, reproduced on the real code by the thorough tier's wa.huge probe)"],
     },
 }
 
@@ -527,6 +534,39 @@ class ExclFamily(Family):
         return True
 
 FAMILIES["excl"] = ExclFamily
+
+
+class HugeFamily(Family):
+    """finding F11 (known, not repaired): an entry of 2^32 + 5 bytes through the real writer and reader.  Thorough tier only:
+    it writes a 4 GiB file (removed afterwards) and needs a build without sanitizers to finish in about a minute."""
+    name = "huge"
+    variant = "plain"
+    def cases(self, pid, seed, tier, mult, stats):
+        if tier == "thorough":
+            stats.bump("entry_of_4GiB_plus_5_bytes")
+            yield ("huge:f11", ["wa.huge 5"])
+    def oracle(self, res):
+        fails = []
+        for i, r in enumerate(res):
+            if not r["req"].startswith("wa.huge"):
+                continue
+            n = (1 << 32) + int(r["req"].split(" ")[1])
+            real = r["real"]
+            if real == "nomem":
+                continue
+            kv = dict(a.split("=", 1) for a in real.split(" ") if "=" in a)
+            adds = kv.get("add", "?").split(",")
+            if adds[0] != "ok":
+                fails.append(("C08", "mtbl_writer_add refused the first entry of a table (value of %d bytes): the gate must accept any key when nothing was accepted yet" % n, i))
+            elif not (kv.get("read") == "2" and kv.get("lens") == "%d,1" % n and kv.get("end") == "eof"):
+                fails.append(("C08", "F11: mtbl_writer_add accepted a value of %d bytes as the first entry of a table and the finished file does not hold it: reading it back gives %s" % (n, real[:120]), i))
+        return fails
+    def tie_props(self, res, idx):
+        return set()
+    def nontrivial(self, pid, lines, res):
+        return True
+
+FAMILIES["huge"] = HugeFamily
 NOT_YET = {}
 
 
@@ -628,6 +668,10 @@ class EncFamily(Family):
         for c in self.corpus(pid):
             yield c
         self.stats = stats
+        # a well-formed table whose first data block really exceeds 4 GiB (sparse file, independent C encoder in
+        # harness/ops_big.c): restart offsets above 2^32 in a 64-bit restart array; thorough: also with checksum verification
+        yield ("enc:big4g", ["rv.big4g 0"] + (["rv.big4g 1"] if tier == "thorough" else []))
+        stats.bump("enc_real_4GiB_block")
         for i in range(budget(tier, 200, 3000, mult)):
             yield ("enc:%d:%d" % (seed, i), ["#gen-enc %d %d" % (seed, i)])
     def run(self, exe, lines):
@@ -665,7 +709,9 @@ class EncFamily(Family):
                 return ents
         return []
     def oracle(self, res):
-        return [f for f in F.oracle_enc(res, getattr(self, "last_ents", [])) if f[0] != "gen"]
+        big = [("C11", "well-formed table with a data block above 4 GiB (64-bit restart offsets >= 2^32): " + r["real"][:160], i)
+               for i, r in enumerate(res) if r["req"].startswith("rv.big4g") and not r["real"].startswith(("big ok", "big skipped"))]
+        return big + [f for f in F.oracle_enc(res, getattr(self, "last_ents", [])) if f[0] != "gen"]
     def tie_props(self, res, idx):
         return {"C11"}
     def nontrivial(self, pid, lines, res):
